@@ -13,9 +13,9 @@ from lib import core, gendoc as G, oracle_html, drv as D
 ID = 'C03'
 EXT = D.EXT_CLI & ~D.EXT['SMART']
 SAFE = set(['emph', 'strong', 'code', 'link', 'image', 'esc', 'entity', 'break', 'quote', 'list', 'codeblock', 'rule', 'heading', 'table', 'deflist', 'footnote', 'math', 'supsub', 'autolink',
-            'figure', 'smart', 'adjacent', 'tight-children', 'heading-inlines', 'colspan'])
+            'figure', 'smart', 'adjacent', 'tight-children', 'heading-inlines', 'colspan', 'nested-indented'])
 # what plain Markdown (compatibility mode) knows
-COMPAT = set(['emph', 'strong', 'code', 'link', 'image', 'esc', 'entity', 'break', 'quote', 'list', 'codeblock', 'rule', 'heading', 'autolink', 'figure', 'indented-only', 'adjacent', 'tight-children', 'heading-inlines'])
+COMPAT = set(['emph', 'strong', 'code', 'link', 'image', 'esc', 'entity', 'break', 'quote', 'list', 'codeblock', 'rule', 'heading', 'autolink', 'figure', 'indented-only', 'adjacent', 'tight-children', 'heading-inlines', 'nested-indented'])
 # mode name -> (extensions, smart, compat, features)
 MODES = {
     'mmd': (EXT, False, False, SAFE),
@@ -66,6 +66,12 @@ def diff_class(exp, out, i):
         if '<blockquote>' in exp[:pre]:
             return 'code-in-quote-indentation-lost' + (':first-line' if first else '')
         return 'nested-code-indentation-lost' + (':first-line' if first else '')
+    if pre >= 0 and exp.find('</code></pre>', pre) > i and out[i:i + 1] == ' ' and '<blockquote>' in exp[:pre]:
+        # the output line has one space more than the source line: "> " + 3 spaces is read as "4 spaces after '>'"
+        ls = max(exp.rfind('\n', 0, i), exp.rfind('>', 0, i)) + 1
+        lead = len(exp[ls:i]) if exp[ls:i].strip(' ') == '' else -1
+        if lead >= 0 and (lead + 1) % 4 == 0:
+            return 'fenced-code-in-quote:three-space-indent-becomes-four'
     m = exp.rfind('<code class="', 0, i + 1)
     if m >= 0 and out[m + 13:m + 14] == '`':
         return 'fence-read-as-language'
